@@ -7,6 +7,7 @@ from the fault plan; every chunk crosses a pickle boundary.  Oracle: sequential 
 import copy
 
 import numpy as np
+import pandas as pd
 
 from .. import nets, ops, oracles, simpool
 from . import c08, c14
@@ -58,7 +59,12 @@ def generate(rng, idx, tier):
     ol.append({"op": "parallel", "cases": c14.gen_cases(rng), "raise_errors": rng.random() < 0.15,
                "write_to_net": rng.random() < 0.7,
                "pf": rng.choice([{}, {}, {"max_iteration": 6}, {"numba": False}]),
-               "schedules": [gen_schedule(rng) for _ in range(rng.randint(2, 4))]})
+               "schedules": [gen_schedule(rng) for _ in range(rng.randint(2, 4))],
+               "pf_n0": rng.choice([None, None, None, {"trafo_model": "pi"}, {"tolerance_mva": 1e-6}]),
+               "pf_n1": rng.choice([None, None, None, {"trafo_model": "pi"}, {"trafo_loading": "power"},
+                                    {"enforce_q_lims": True}]),
+               "recycle_kw": rng.random() < 0.15,
+               "index_form": rng.choice(["list", "list", "array", "pd_index", "tuple"])})
     return {"cfg": cfg, "ops": ol}
 
 
@@ -123,10 +129,26 @@ def _exec_parallel(net, op, i, ctx):
     kw = dict(op["pf"])
     if op["raise_errors"]:
         kw["raise_errors"] = True
+    if op.get("recycle_kw"):
+        kw["recycle"] = {"bus_pq": True, "trafo": False, "gen": False}
+    if op.get("pf_n0") is not None or op.get("pf_n1") is not None:
+        kw["pf_options"] = dict(op.get("pf_n0") or {})
+        kw["pf_options_nminus1"] = dict(op.get("pf_n1") or {})
+        ctx.probe("separate_n0_n1_options")
+    form = op.get("index_form", "list")
+    base_cases = case_dict
+
+    def shaped():
+        out = copy.deepcopy(base_cases)
+        for v_ in out.values():
+            ix = v_["index"]
+            v_["index"] = np.array(ix, dtype=np.int64) if form == "array" else pd.Index(ix) if form == "pd_index" \
+                else tuple(ix) if form == "tuple" else list(ix)
+        return out
     # reference: sequential analysis on a scrubbed copy, recorded per case
     ref_net = oracles.scrubbed_copy(net)
     rec = c14.Recorder(ref_net, c14._NullCtx(), [])
-    ref, ref_exc = c08._plain_call(lambda: run_contingency(ref_net, copy.deepcopy(case_dict), write_to_net=False,
+    ref, ref_exc = c08._plain_call(lambda: run_contingency(ref_net, shaped(), write_to_net=False,
                                                            contingency_evaluation_function=rec, **kw))
     failed = [c for c in rec.calls if c["raised"]]
     for _ in failed:
@@ -145,7 +167,7 @@ def _exec_parallel(net, op, i, ctx):
         undo = simpool.install(cp, sched, cpu_count=plan.get("cpu_count", 4))
         try:
             res, exc = c08._plain_call(lambda: cp.run_contingency_parallel(
-                live, copy.deepcopy(case_dict), write_to_net=op["write_to_net"], n_procs=plan["n_procs"], **kw))
+                live, shaped(), write_to_net=op["write_to_net"], n_procs=plan["n_procs"], **kw))
         finally:
             undo()
         st = simpool.SimPool.stats
